@@ -450,20 +450,25 @@ def c15_faults(env, thorough):
         env.samples.append({'op': opname, 'syscalls_in_window': [w[0] for w in window]})
         for name, nth, inwin, after_rename, failed_anyway in window:
             for errno in ERRNOS[name]:
-                fresh()
-                run = engine.run_driver(env.drv, env.work, {'base': base, 'snap': True, 'steps': [step]}, tag='c15i',
-                                        inject='%s:error=%s:when=%d' % (name, errno, nth))
+                # (the fault position is computed from the baseline trace; should another thread of
+                # the driver process issue the same system call in between, the fault lands
+                # elsewhere: that run is discarded and repeated)
+                landed = False
+                for attempt in range(4):
+                    fresh()
+                    run = engine.run_driver(env.drv, env.work, {'base': base, 'snap': True, 'steps': [step]}, tag='c15i',
+                                            inject='%s:error=%s:when=%d' % (name, errno, nth))
+                    inj = [c for c in run.calls if c.injected]
+                    mk2, tid2 = engine.marks(run.calls)
+                    bi = [i for i, t in mk2 if t == 'B:0']
+                    ei = [i for i, t in mk2 if t.startswith('E:0')]
+                    if len(inj) == 1 and run.report is not None and bi and ei and bi[0] < run.calls.index(inj[0]) < ei[0] and inj[0].tid == tid2:
+                        landed = True
+                        break
                 nruns += 1
                 env.cov['evaluations'] += 1
-                inj = [c for c in run.calls if c.injected]
-                mk2, tid2 = engine.marks(run.calls)
-                if len(inj) != 1 or run.report is None:
-                    raise TraceError('fault injection %s#%d %s into %s did not hit exactly one call (%d) / no report: %s' % (name, nth, errno, opname, len(inj), run.stderr[-300:]))
-                bi = [i for i, t in mk2 if t == 'B:0']
-                ei = [i for i, t in mk2 if t.startswith('E:0')]
-                pos = run.calls.index(inj[0])
-                if not bi or not ei or not (bi[0] < pos < ei[0]) or inj[0].tid != tid2:
-                    raise TraceError('injected fault landed outside the operation window (%s#%d into %s)' % (name, nth, opname))
+                if not landed:
+                    raise TraceError('fault injection %s#%d %s into %s did not land inside the operation window in 4 attempts: %s' % (name, nth, errno, opname, run.stderr[-300:]))
                 rep = run.report[0]
                 after = user_files(engine.snap_to_tree(rep.get('snap') or {}))
                 changed = after != pre
